@@ -113,7 +113,68 @@ def run_unit(unit):
     return agg
 
 
+def run_hist(unit):
+    """join with a uniqueness expectation that holds; edit the key column in place (once / twice) so that it stops (or starts)
+    holding; join again - the verdict must follow the CURRENT keys.  Run under fresh and recycled storage identities."""
+    from serif.errors import SerifValueError
+    _, policy = unit
+    core.reset_globals(policy)
+    agg = Agg()
+    for method in METHODS:
+        for side in ("R", "L"):
+            ex = "many_to_one" if side == "R" else "one_to_many"
+            for n in (2, 3, 4):
+                keys = list(range(1, n + 1))
+                for i in range(n):
+                    for j in range(n):
+                        if i == j:
+                            continue
+                        for path in ("cell", "view"):
+                            for writes in (1, 2):
+                                agg.evals += 1; agg.transitions += 2 + writes; agg.states += 1; agg.nontrivial += 1; agg.compared += 2
+                                case = {"method": method, "expect": ex, "side": side, "keys": keys, "dup": [i, j], "path": path, "writes": writes,
+                                        "allocator": policy, "history": ["join (expectation holds)", f"{writes} in-place write(s) creating a duplicate key", "join again"]}
+                                try:
+                                    other = [(k,) for k in keys]
+                                    L, lon, _ = js.build_side("L", other, 1, "std", "name")
+                                    R, ron, _ = js.build_side("R", other, 1, "std", "name")
+                                    T = R if side == "R" else L
+                                    getattr(L, method)(R, left_on=lon, right_on=ron, expect=ex)        # must pass
+                                    if writes == 2:
+                                        (T.__setitem__((i, "k0"), 99) if path == "cell" else T["k0"].__setitem__(i, 99))
+                                    (T.__setitem__((i, "k0"), keys[j]) if path == "cell" else T["k0"].__setitem__(i, keys[j]))
+                                except Exception as e:
+                                    agg.violation(V(f"{method}.{ex}.history", "setup-raises-" + type(e).__name__, case, None, repr(e)[:80]))
+                                    continue
+                                try:
+                                    getattr(L, method)(R, left_on=lon, right_on=ron, expect=ex)
+                                    agg.violation(V(f"{method}.{ex}.history", "duplicate-created-in-place-not-noticed", case, "SerifValueError", "accepted"))
+                                    continue
+                                except SerifValueError:
+                                    pass
+                                except Exception as e:
+                                    agg.violation(V(f"{method}.{ex}.history", "raises-" + type(e).__name__, case))
+                                    continue
+                                # and back: remove the duplicate again, the join must be accepted again
+                                try:
+                                    (T.__setitem__((i, "k0"), keys[i]) if path == "cell" else T["k0"].__setitem__(i, keys[i]))
+                                    getattr(L, method)(R, left_on=lon, right_on=ron, expect=ex)
+                                    agg.outcomes["history-verdict-follows-keys"] += 1
+                                except Exception as e:
+                                    agg.violation(V(f"{method}.{ex}.history", "refused-after-duplicate-was-removed-" + type(e).__name__, case))
+    agg.sample({"history": ["join", "in-place writes", "join"], "allocator": policy})
+    return agg
+
+
 def check(ctx):
+    parts = core.pmap(run_unit, plan(ctx.thorough)) + core.pmap(run_hist, [("hist", "fresh"), ("hist", "recycle")])
+    agg = core.merge_all(parts)
+    agg.notes["bound"] = "key lists of length 0..3 (quick) / 0..4 (thorough), 1 key column over int/intc/str, 2 key columns over int"
+    agg.notes["exhaustive"] = True
+    return agg
+
+
+def _unused_check(ctx):
     agg = core.merge_all(core.pmap(run_unit, plan(ctx.thorough)))
     agg.notes["bound"] = "key lists of length 0..3 (quick) / 0..4 (thorough), 1 key column over int/intc/str, 2 key columns over int"
     agg.notes["exhaustive"] = True
